@@ -2864,7 +2864,9 @@ impl LineBuf {
 				}
 
 				let (start,end) = match motion.1 {
+					Motion::ScreenLineUp |
 					Motion::LineUp => (start,self.end_of_line()),
+					Motion::ScreenLineDown |
 					Motion::LineDown => (self.start_of_line(),end),
 					_ => unreachable!()
 				};
